@@ -259,6 +259,20 @@ def run(ctx):
                 n_heap += 1
                 d1_ = _derive(hix, t_["args"][1])
                 textlen += [c_ for c_ in d1_.calls if c_.endswith(("String::len", "str::len", "Chars<'a> as std::iter::Iterator>::count", "str::chars"))]
+        # the walk over the texture paths starts at heap offset 0 and, read byte by byte, keeps every byte it reads
+        byte_gets = [t_ for _bi, t_ in mfb.calls() if hix.callee(t_).split("::")[-1] == "get" and len(t_["args"]) == 2 and "strings" in _derive(hix, t_["args"][0]).names and str((t_["args"][1].get("c") or t_["args"][1].get("m") or {}).get("ty", "usize")) == "usize"]
+        if byte_gets:
+            idx_consts = set()
+            for t_ in byte_gets:
+                idx_consts |= _derive(hix, t_["args"][1]).consts
+            ctx.ob("HEAP", "walk-starts-at-0", 0 in idx_consts and idx_consts <= {0, 1}, f"the byte index into the string heap is built from the constants {sorted(idx_consts)}; the first texture path starts at heap offset 0 and the index advances by 1", mfb.file, mfb.line)
+            pushes_ = [t_ for _bi, t_ in mfb.calls() if hix.callee(t_).split("::")[-1] == "push" and "String" in hix.callee(t_) and len(t_["args"]) == 2 and any(c_.split("::")[-1] == "get" for c_ in _derive(hix, t_["args"][1]).calls)]
+            # every String the byte-wise walk starts (String::new) receives characters
+            news_ = [t_["dest"]["l"] for _bi, t_ in mfb.calls() if hix.callee(t_).endswith("String::new")]
+            appends_ = [t_ for _bi, t_ in mfb.calls() if hix.callee(t_).split("::")[-1] in ("push", "push_str", "extend", "add_assign") and "String" in hix.callee(t_)]
+            starved = [l_ for l_ in news_ if not any(l_ in _derive(hix, t_["args"][0]).locals for t_ in appends_)]
+            ctx.ob("HEAP", "every-string-fed", not starved, f"{len(news_)} strings are started with String::new in the heap walk; {len(starved)} of them never receive a character", mfb.file, mfb.line)
+            ctx.ob("HEAP", "bytes-kept", bool(pushes_), f"{len(byte_gets)} byte reads from the string heap, {len(pushes_)} of the decoded characters pushed onto the path / name being built (a read byte that is not kept yields empty names)", mfb.file, mfb.line)
         ctx.ob("HEAP", "offset-advances-by-bytes", not (latin1 and textlen), f"{n_heap} string-heap accesses; their offsets derive from text lengths {sorted(set(textlen))} while the text is decoded one char per byte ({latin1}); the next path starts after the bytes consumed, not after the decoded String's UTF-8 length", mfb.file, mfb.line, sample=True)
 
     # ---- W1 / W3
